@@ -59,6 +59,7 @@ def check(ctx):
     ctx.run(depgraph.check_swap_sem)
     ctx.run(depgraph.check_index_prune)
     ctx.run(depgraph.check_flatten_fixpoint)
+    ctx.run(depgraph.check_topo_cycle)
     ctx.stats['functions_analysed'] = analyzer.functions_analysed
     ctx.stats['call_sites_resolved'] = analyzer.calls_resolved
     ctx.run(patterns.check_patterns, ID)
@@ -70,6 +71,69 @@ def _variants(program):
     def add(name, kind, mod, editor, expect=None, quick=False, note=''):
         out.append(Variant(name, kind, edit_module(program, mod, editor),
                            expect, quick, note))
+
+    def _kahn(complete):
+        def editor(tree):
+            fun = find_func(tree, 'DepGraph.topological_sort')
+            start = 1 if isinstance(fun.body[0], ast.Expr) else 0
+            body = (
+                'result = []\n'
+                'n_pending = {}\n'
+                'waiting = {index: [] for index in self._edges}\n'
+                'for index, targets in self._edges.items():\n'
+                '    n_pending[index] = len(targets)\n'
+                '    for target in targets:\n'
+                '        waiting[target].append(index)\n'
+                'ready = [index for index, n_deps in n_pending.items() '
+                'if n_deps == 0]\n'
+                'if n_pending and not ready:\n'
+                "    raise DepGraphError('Dependency graph is cyclic!')\n"
+                'while ready:\n'
+                '    index = ready.pop()\n'
+                '    result.append(self._nodes[index])\n'
+                '    for dependee in waiting[index]:\n'
+                '        n_pending[dependee] -= 1\n'
+                '        if n_pending[dependee] == 0:\n'
+                '            ready.append(dependee)\n')
+            if complete:
+                body += ('if len(result) != len(self._nodes):\n'
+                         "    raise DepGraphError('Dependency graph is "
+                         "cyclic!')\n")
+            body += 'return result'
+            fun.body[start:] = parse_stmts(body)
+            return True
+        return editor
+    add('seed-iterative-sort-without-completeness-test', 'mutant', DGM,
+        _kahn(False), {'TOPO-CYCLE'},
+        note='seed C16-r4-1: a cycle below an acyclic part is dropped from '
+             'the result instead of raising')
+    add('twin-iterative-sort-with-completeness-test', 'twin', DGM,
+        _kahn(True))
+
+    def _visit_once(per_start):
+        def editor(tree):
+            fun = find_func(tree, 'DepGraph.transitive_reduction')
+            visit = next(n for n in fun.body
+                         if isinstance(n, ast.FunctionDef))
+            loop = next(n for n in fun.body if isinstance(n, ast.For))
+            visit.body[0:0] = parse_stmts(
+                'if current in expanded:\n'
+                '    return set()\n'
+                'expanded.add(current)')
+            new = parse_stmts('expanded = set()')
+            if per_start:
+                loop.body[0:0] = new
+                fun.body.insert(fun.body.index(visit), new[0])
+            else:
+                fun.body.insert(fun.body.index(visit), new[0])
+            return True
+        return editor
+    add('seed-reduction-expands-every-node-once-for-all-start-nodes',
+        'mutant', DGM, _visit_once(False), {'VISITED-KEY'},
+        note='seed C16-r4-2: the visited set survives from one start node '
+             'to the next, redundant edges of later nodes are kept')
+    add('twin-reduction-expands-every-node-once-per-start-node', 'twin', DGM,
+        _visit_once(True))
 
     def complete_keeps_sets(tree):
         fun = find_func(tree, 'DepGraph._complete')
